@@ -59,11 +59,16 @@ def binary(variant="plain"):
     txt = "\n".join(lines) + "\n"
     p = os.path.join(inc, "kernels.inc")
     if not os.path.exists(p) or open(p).read() != txt:
-        with open(p + ".tmp%d" % os.getpid(), "w") as f:
+        # several threads and processes may get here at once: private temporary name, atomic rename, same content
+        import threading
+        tmp = "%s.tmp%d.%d" % (p, os.getpid(), threading.get_ident())
+        with open(tmp, "w") as f:
             f.write(txt)
-        os.rename(p + ".tmp%d" % os.getpid(), p)
+        os.rename(tmp, p)
     cflags = ["-I" + inc, "-I" + d] + (["-DHAVE_PSHUFB_TABLES"] if pshufb else [])
-    exe = build.link_harness(variant, "raidmon", [SRC], lambda u: u.startswith("raid/"), extra_cflags=cflags + ["-DKINC_" + str(abs(hash(txt)) % 10**9)])
+    import hashlib
+    exe = build.link_harness(variant, "raidmon", [SRC], lambda u: u.startswith("raid/"),
+                             extra_cflags=cflags + ["-DKINC_" + hashlib.sha256(txt.encode()).hexdigest()[:10]])
     return exe, [k[0] for k in ks]
 
 
